@@ -164,6 +164,12 @@ def t_seqfirst(size, i, k):
             ["parallel_block", ["parallel_block", ["gate", "n0"]], ["gate", "m", AI("r", 0), 1]]]
 
 
+@template(size=((1, 2), (1, 3)), c=((0, 2), (0, 4)), i=((0, 1), (-1, 3)))
+def t_subcount(size, c, i):
+    """a literal subcircuit count on its own (0 is a legal count)"""
+    return ["circuit", ["register", "r", size], ["subcircuit_block", c, ["gate", "g1", AI("r", i)]], ["subcircuit_block", "", ["gate", "n0"]]]
+
+
 ALL = sorted(T)
 WITH_MACROS = [n for n in ALL if any(st[0] == "macro" for st in T[n](**{k: (v[0][0] if not k.startswith("x") else 0) for k, v in T[n].leaves.items()})[1:])]
 WITH_LETS = [n for n in ALL if any(st[0] == "let" for st in T[n](**{k: (v[0][0] if not k.startswith("x") else 0) for k, v in T[n].leaves.items()})[1:])]
